@@ -261,6 +261,7 @@ Definition C06_through_forked : Prop :=
   forall merged forked start c stop bundle,
     chain_ok merged ->
     let D := file_delivery merged start stop bundle in
+    start <= rn (cu_blk c) ->
     ~ In (ri (cu_blk c)) (ids D) ->
     (exists b, In b D /\ rn (cu_lib c) < bnum b /\ rn (cu_blk c) <= bnum b) ->
     through_cursor_run merged forked start c stop bundle =
@@ -279,6 +280,25 @@ Definition C06_through_final_cursor : Prop :=
     let D := file_delivery merged start stop bundle in
     In B D -> bref B = cu_blk c -> rn (cu_blk c) <= rn (cu_lib c) ->
     through_cursor_run merged forked start c stop bundle = (map (file_event SNewIrr) D, RsOk).
+
+(* a target cursor whose block is below the start block has already passed: it is ignored (the rule of
+   ForkableHub.SourceThroughCursor) and every block from the start block on is delivered, once, in
+   order, as new+irreversible - whether the cursor is on the chain, forked or final.
+   (The code as shipped handed such a stream to the cursor resolver, which ended it on its first block
+   with the "not implemented" error although nothing needs resolving: `through_resolver_run`, witness
+   below — found by the hypothesis audit, the hypothesis `In B D` of C06_through_on_chain; replayed on the
+   real code, fixed in filesource.go.) *)
+Definition C06_through_passed : Prop :=
+  forall merged forked start c stop bundle,
+    rn (cu_blk c) < start ->
+    through_cursor_run merged forked start c stop bundle =
+      (map (file_event SNewIrr) (file_delivery merged start stop bundle), RsOk).
+
+Definition C06_through_passed_unfixed_refuted : Prop :=
+  exists merged start c stop bundle B,
+    chain_ok merged /\ In B merged /\ bref B = cu_blk c /\ rn (cu_blk c) < start /\
+    file_delivery merged start stop bundle <> [] /\
+    through_resolver_run merged [] start c stop bundle = ([], RsNotImplemented).
 
 (* the pass-through part of cursorResolver.ProcessBlock before the fix (pass = true only) *)
 Definition resolver_step_unfixed (c : cursor) (s : rstate) (b : block) : rstate * list event * rres :=
